@@ -5,6 +5,7 @@ import (
 	"io"
 	"net"
 	"os"
+	"runtime"
 	"strconv"
 	"sync"
 	"time"
@@ -40,6 +41,13 @@ type StreamPlan struct {
 	// to it (they reach the peer), returns the short count and the error; later Writes accept 0.
 	WriteFault   string
 	WriteFaultAt int
+	// YieldAfterWrite makes every Write on this end yield the processor (runtime.Gosched) after the
+	// octets have been queued and before it returns: code that sends one message with several Write
+	// calls then gives concurrent writers on the same conn the chance to get in between.
+	YieldAfterWrite bool
+	// WriteCalls, when non-nil, receives the size of every Write call on this end (appended under
+	// the pipe's mutex; read it after the writers are done).
+	WriteCalls *[]int
 }
 
 type half struct {
@@ -209,12 +217,21 @@ func (c *Conn) Write(b []byte) (int, error) {
 	if err != nil {
 		c.point("write(err)")
 	}
+	c.p.mu.Lock()
+	yield := c.hasPlan && c.plan.YieldAfterWrite
+	c.p.mu.Unlock()
+	if yield {
+		runtime.Gosched()
+	}
 	return n, err
 }
 
 func (c *Conn) write(b []byte) (int, error) {
 	c.p.mu.Lock()
 	defer c.p.mu.Unlock()
+	if c.hasPlan && c.plan.WriteCalls != nil {
+		*c.plan.WriteCalls = append(*c.plan.WriteCalls, len(b))
+	}
 	if c.closed {
 		return 0, &net.OpError{Op: "write", Net: "mem", Err: net.ErrClosed}
 	}
